@@ -333,3 +333,53 @@ def check(ctx, rep):
         else:
             rep.bad("R-KINDS", "R-KINDS:" + key, b.where(), "HaystackDict::%s accepts %s%s, expected exactly {%s}" % (nm, sorted(pos), " and by default" if dflt else "", want))
     return len(vv), npred, nconv, nget
+
+
+def check_make_from_dicts(ctx, rep):
+    """Grid::make_from_dicts: the column set is the de-duplicated union of *all* row keys (no filtering adaptor between the
+    rows and the name set), turned into columns one-to-one and sorted by name; the rows are moved in unchanged"""
+    prog = ctx.prog
+    b = prog.get("haystack::val::grid::Grid::make_from_dicts")
+    if b is None:
+        rep.gap("Grid::make_from_dicts", "-", "not found")
+        return 0
+    bodies = [b] + [prog.bodies[c] for c in prog.closures_of.get(b.id, [])]
+    calls = []
+    for x in bodies:
+        for bi, t in x.calls():
+            calls.append((x, bi, strip_generics(mir.callee_name(t) or "")))
+    names = [c[2] for c in calls]
+    n = 0
+    FILTERS = ("::filter", "::filter_map", "::take", "::skip", "::take_while", "::skip_while", "::step_by", "::find", "::nth", "::dedup_by_key")
+    fl = [c for c in calls if c[2].endswith(FILTERS)]
+    n += 1
+    if fl:
+        rep.bad("T-COLUMNS", "T-COLUMNS:make_from_dicts:no-filtering", fl[0][0].where(fl[0][1]), "make_from_dicts passes the row keys through %s: some tag names never become columns, so a row key is not a column" % fl[0][2].split("::")[-1])
+    else:
+        rep.ok("T-COLUMNS", "make_from_dicts:no-filtering", b.where(), "no filtering adaptor between the rows' keys and the column set")
+    n += 1
+    key_src = any(nm.endswith("BTreeMap::keys") or nm.endswith("Dict::keys") or nm.endswith("::keys") for nm in names)
+    ins = any(nm.endswith("HashSet::insert") or nm.endswith("BTreeSet::insert") for nm in names)
+    if key_src and ins:
+        rep.ok("T-COLUMNS", "make_from_dicts:union-of-keys", b.where(), "every key of every row is inserted into a set (de-duplicated union)")
+    else:
+        rep.bad("T-COLUMNS", "T-COLUMNS:make_from_dicts:union-of-keys", b.where(), "column names are not gathered as keys() of every row inserted into a set (keys=%s, set insert=%s)" % (key_src, ins))
+    n += 1
+    srt = [c for c in calls if c[2].endswith("::sort_by") or c[2].endswith("::sort") or c[2].endswith("::sort_by_key") or c[2].endswith("::sort_unstable_by")]
+    by_name = False
+    for x in bodies:
+        if x.rec["kind"] == "Closure":
+            cs = [strip_generics(mir.callee_name(t) or "") for _, t in x.calls()]
+            args = [repr(G.describe(x, a)) for _, t in x.calls() for a in t["args"]]
+            if any(c.endswith("as std::cmp::Ord>::cmp") for c in cs) and sum(1 for a in args if a.endswith(".name")) >= 2 and not any("Reverse" in c or c.endswith("::reverse") for c in cs):
+                # a.name.cmp(&b.name): first argument from the first parameter
+                for _, t in x.calls():
+                    if strip_generics(mir.callee_name(t) or "").endswith("as std::cmp::Ord>::cmp"):
+                        a0, a1 = repr(G.describe(x, t["args"][0])), repr(G.describe(x, t["args"][1]))
+                        if a0.startswith("_2") and a1.startswith("_3"):
+                            by_name = True
+    if srt and by_name:
+        rep.ok("T-COLUMNS", "make_from_dicts:sorted-by-name", b.where(), "columns sorted ascending by name")
+    else:
+        rep.bad("T-COLUMNS", "T-COLUMNS:make_from_dicts:sorted-by-name", b.where(), "columns are not sorted ascending by name (sort call: %s, comparator a.name.cmp(b.name): %s)" % (bool(srt), by_name))
+    return n
